@@ -466,7 +466,7 @@ def pUsed : Payload → Bool
 def queueG (G : List Note) (v : Int) : List Payload :=
   (defaultVals (max (G.countP isClap) (max (G.countP isFinish) (G.countP isWhistle)))
       (G.countP isClap) (G.countP isFinish) (G.countP isWhistle)).map (fun x => Payload.dflt x v)
-    ++ ((splitSep sep (joinSep sep (G.map (·.file)))).filter (fun f => f.length > 0)).map (fun f => Payload.file f v)
+    ++ ((G.map (·.file)).filter (fun f => f.length > 0)).map (fun f => Payload.file f v)
 
 theorem sum_bit (m : Nat) (hm : 0 < m) (G : List Note) :
     (G.map (fun n => if hasBit n.hs m then m else 0)).sum / m = G.countP (fun n => hasBit n.hs m) := by
@@ -593,15 +593,13 @@ theorem queueG_whistle (G : List Note) (v : Int) : (queueG G v).countP (pBit hsW
   rw [List.countP_append, countP_pBit_files, Nat.add_zero, List.countP_map]
   exact defaultVals_whistle _ _ _ _ (Nat.le_trans (Nat.le_max_right _ _) (Nat.le_max_right _ _))
 
-/-- no file name in the list contains the separator -/
+/-- no file name in the list contains the separator (a hypothesis of C15's lemmas; not needed here any more) -/
 def NoSepL (L : List Note) : Prop := ∀ n ∈ L, ¬ sep ∈ n.file
 
-theorem queueG_file (G : List Note) (v : Int) (hG : NoSepL G) (f : File) (hf : f ≠ []) :
+theorem queueG_file (G : List Note) (v : Int) (f : File) (hf : f ≠ []) :
     (queueG G v).countP (pFile f) = G.countP (fun n => n.file == f) := by
-  have hsplit := split_join_filter sep (G.map (·.file)) (by
-    intro p hp; rw [List.mem_map] at hp; obtain ⟨n, hn, rfl⟩ := hp; exact hG n hn)
   unfold queueG
-  rw [List.countP_append, countP_pFile_dflt, Nat.zero_add, hsplit, List.countP_map, List.countP_filter, List.countP_map]
+  rw [List.countP_append, countP_pFile_dflt, Nat.zero_add, List.countP_map, List.countP_filter, List.countP_map]
   apply List.countP_congr
   intro n _
   simp only [Function.comp, pFile, beq_iff_eq, Bool.and_eq_true, decide_eq_true_eq]
